@@ -2324,7 +2324,8 @@ impl<'a> Checker<'a>
                 if !self.in_direct_step || self.tree_depth > 0 { return bail("bulk reactor release inside a batch or tree (not generated)"); }
                 if self.bulk_released > 0 || self.bulk_held > 0 || !self.sys.doomed.is_empty() { return bail("bulk reactor release while other signals await their collection (not generated)"); }
                 self.guaranteed_gc();
-                if *mode >= 2 && (self.polled.iter().any(|p| !p.closed) || !self.wq.is_empty()) { return bail("strip variant of the bulk reactor release while removals / despawns await their poll (not generated)"); }
+                // (an open entry nobody has to or may react to is harmless: the op's hidden polls run nothing for it)
+                if *mode >= 2 && (self.polled.iter().any(|p| !p.closed && !(p.must.is_empty() && p.extra.is_empty())) || !self.wq.is_empty()) { return bail("strip variant of the bulk reactor release while removals / despawns await their poll (not generated)"); }
                 let Some(Ev::ReactorBulk { uid, n: n2, leaked, runs }) = self.peek()?.cloned() else { return self.unexpected("bulk reactor release observation"); };
                 if uid != u || n2 != *n as u32 { return self.unexpected("bulk reactor release observation"); }
                 self.advance()?;
